@@ -28,7 +28,7 @@ CHECKS = {
         "technique": "CFG simulation over count orderings + container-kind dataflow + callee length summaries + kind typing of isinstance operands + abstract evaluation of small pure functions over enumerated finite / boundary domains with symbolic values (engine/minieval.py; fetcher / operation contracts in rules/fetcheval.py) (static)",
     },
     "C05": {
-        "text": "The shape (kinds, order, arity, provenance of every leaf) of every encoder reachable from the sender seam - PDU body, GETBULK framing, community wrapper, SNMPv3 message / header / flags / scoped PDU / USM parameters - is extracted from the source and compared with tables transcribed from RFC 1157/1901/3416/3412/3414; the flag octet is evaluated for all 8 combinations.",
+        "text": "The shape (kinds, order, arity, provenance of every leaf) of every encoder reachable from the sender seam - PDU body, GETBULK framing, community wrapper, SNMPv3 message / header / flags / scoped PDU / USM parameters - is extracted from the source and compared with tables transcribed from RFC 1157/1901/3416/3412/3414; the flag octet is evaluated for all 8 combinations. The digest key is the one localised for this engine (shared with C10-R5); the pythonic wrapper hands the caller's OIDs on one-to-one (shared with C04-R9).",
         "note": "Trusted: ast, the analyser, the RFC tables. Not decided: x690's primitive encodings (integers, OIDs with large sub-identifiers, lengths) over their full ranges - numeric, delegated to x690.",
         "technique": "BER shape extraction with provenance + RFC table comparison + constant folding + abstract evaluation of small pure functions over enumerated finite / boundary domains with symbolic values (engine/minieval.py; nothing is imported or run) (static)",
     },
@@ -84,7 +84,7 @@ CHECKS = {
         "technique": "abstract interpretation over a kind lattice (provenance of result leaves) + abstract evaluation of small pure functions over enumerated finite / boundary domains with symbolic values (engine/minieval.py; fetcher / operation contracts in rules/fetcheval.py) (static)",
     },
     "C16": {
-        "text": "Offset agreement of the two table variants (len(oid) vs len(oid)+1, evaluated symbolically), a symbolic slice algebra showing column = arc[base] and row index = all remaining arcs (complete multi-component index, stored under '0'), get-or-create row accumulation, and complete in-order consumption of the single-root walk.",
+        "text": "Offset agreement of the two table variants (len(oid) vs len(oid)+1, evaluated symbolically), a symbolic slice algebra showing column = arc[base] and row index = all remaining arcs (complete multi-component index, stored under '0'), get-or-create row accumulation, and complete in-order consumption of the single-root walk. A usmStats report arriving instead of a table row raises (shared with C12-R4); it cannot end the fetch like an OID outside the table.",
         "note": "Trusted: ast, the analyser. Assumes the walks deliver exactly the subtree (C01/C02). Not decided: equality with an arbitrary agent table as a whole (follows from the decided clauses plus C01/C02).",
         "technique": "linear normaliser + symbolic slice algebra + syntactic get-or-create idiom check + abstract evaluation of small pure functions over enumerated finite / boundary domains with symbolic values (engine/minieval.py; nothing is imported or run) (static)",
     },
@@ -95,7 +95,7 @@ CHECKS = {
     },
     "C18": {
         "category": "proof",
-        "text": "Save/restore pairing (W subset of restored, each from a local saved before the try, finally covers the yield), atomic configure (validation dominates all stores; no call after a store), settings read at send time, and family switch from the new credentials are all decided; exact restoration at any nesting depth follows by induction on depth.",
+        "text": "Save/restore pairing (W subset of restored, each from a local saved before the try, finally covers the yield), atomic configure (validation dominates all stores; no call after a store), settings read at send time, and family switch from the new credentials are all decided; exact restoration at any nesting depth follows by induction on depth. The retries value in force is honoured exactly by the UDP sender (shared with C13-R2).",
         "note": "Trusted: ast, the analyser, contextlib.contextmanager semantics, frozen dataclass immutability (checked). Not decided: nothing of substance.",
         "technique": "effect analysis over the call graph + dominance (must-pass-through) + syntactic provenance of arguments (static)",
     },
@@ -105,7 +105,7 @@ CHECKS = {
         "technique": "schema-kind evaluation + dominance (must-pass-through) + who-may-close (static)",
     },
     "C20": {
-        "text": "Every while loop of the resolved program (x690 included) is classified by a progress idiom; the TLV walker's cursor advance is derived by a relative lower-bound analysis of x690's get_value_slice / decode_length on every path; taint from decoded values to range()/repetition/allocation sinks (zero expected, positive fixture); decode paths write no shared state; no eager recursion on the decode path. One genuine defect (indefinite-length branch of x690) is recorded as known finding. Added later: decoded USM security parameters are refused unless every member has its ASN.1 type (evaluated on wrongly typed / short / long sequences; genuine defect D18, repaired); the socket of an exchange is closed for every reply (adopted from C13); no response keeps a walk asking for the same OIDs for ever (adopted from C03).",
+        "text": "Every while loop of the resolved program (x690 included) is classified by a progress idiom; the TLV walker's cursor advance is derived by a relative lower-bound analysis of x690's get_value_slice / decode_length on every path; taint from decoded values to range()/repetition/allocation sinks (zero expected, positive fixture); decode paths write no shared state; no eager recursion on the decode path. One genuine defect (indefinite-length branch of x690) is recorded as known finding. Added later: decoded USM security parameters are refused unless every member has its ASN.1 type (evaluated on wrongly typed / short / long sequences; genuine defect D18, repaired); the socket of an exchange is closed for every reply (adopted from C13); no response keeps a walk asking for the same OIDs for ever (adopted from C03). Locks are held through `with` or acquire() + try / finally release(), so no datagram content can leave one locked.",
         "note": "Trusted: ast, the analyser, CPython facts (len >= 0, unsigned from_bytes >= 0, find >= -1). Not decided: time and memory as a concrete multiple of the datagram size.",
         "technique": "relative lower-bound abstract interpretation + loop progress-idiom classification + taint + effect analysis + abstract evaluation of small pure functions over enumerated finite / boundary domains with symbolic values (engine/minieval.py; fetcher / operation contracts in rules/fetcheval.py) (static)",
     },
